@@ -11,7 +11,7 @@ Proof.
   injection H as <-. unfold with_th.
   set (c' := tick (join (clk (T s t)) (clk (T s c))) t).
   set (x' := {| clk := c'; pend := pend (T s t); refs := refs (T s t);
-                excl := excl (T s t); mustfree := mustfree (T s t); started := true |}).
+                excl := excl (T s t); mustfree := mustfree (T s t); started := true; lend := lend (T s t) |}).
   assert (HT : forall M W R l u, T {| msgs := M; Wc := W; Rc := R; live := l; ths := upd (ths s) t x' |} u
                          = if Nat.eqb u t then x' else T s u) by (intros; apply T_upd; auto).
   assert (Htot : total (upd (ths s) t x') = total (ths s)).
@@ -22,11 +22,13 @@ Proof.
   - intros u. rewrite HT. destruct (Nat.eqb_spec u t) as [->|Hne']; cbn [refs clk x'].
     + intros Hr. eapply cle_trans; [apply (J2 s I t Hr) | exact Hcc].
     + apply (J2 s I u).
-  - intros Hl u. destruct (J3 s I Hl u) as [H3|[[h [Hh H3]]|[h [Hm H3]]]]; [left; exact H3| |].
+  - intros Hl u. destruct (J3 s I Hl u) as [H3|[[h [Hh H3]]|[[h [Hm H3]]|[h [Hb H3]]]]]; [left; exact H3| | |].
     + right. left. exists h. rewrite HT. destruct (Nat.eqb_spec h t) as [->|Hne']; cbn [refs clk x']; [|auto].
       split; [lia|]. specialize (Hcc u). lia.
-    + right. right. exists h. rewrite HT. destruct (Nat.eqb_spec h t) as [->|Hne']; cbn [mustfree clk x']; [|auto].
+    + right. right. left. exists h. rewrite HT. destruct (Nat.eqb_spec h t) as [->|Hne']; cbn [mustfree clk x']; [|auto].
       split; [exact Hm|]. specialize (Hcc u). lia.
+    + right. right. right. exists h. rewrite HT. destruct (Nat.eqb_spec h t) as [->|Hne']; cbn [lend clk x']; [|auto].
+      split; [exact Hb|]. specialize (Hcc u). lia.
   - intros u. rewrite HT. destruct (Nat.eqb_spec u t) as [->|Hne']; cbn [mustfree clk pend x'].
     + intros Hm. destruct (J4 s I t Hm) as (Hl & H0 & HW & HR & Hu). repeat split; auto.
       * rewrite Htot; auto.
@@ -52,6 +54,7 @@ Proof.
     apply (J8 s I u).
   - intros Hl H0. rewrite Htot in H0. destruct (J9 s I Hl H0) as (h & Hm). exists h. rewrite HT.
     destruct (Nat.eqb_spec h t) as [->|]; cbn [mustfree x']; exact Hm.
+  - apply J10_upd; auto. intros (c0 & Hc0). destruct (J10 s I c0 t Hc0) as (_ & _ & Hr' & _ & He' & _). auto.
 Qed.
 
 (* ---------- ASpawn ---------- *)
@@ -62,13 +65,14 @@ Proof.
   destruct (Nat.eqb_spec c t) as [Hct|Hct]; cbn [orb] in H; [discriminate|].
   destruct (Nat.ltb_spec c (length (ths s))) as [Hc|Hc]; cbn [negb orb] in H; [|discriminate].
   destruct (started (T s c)) eqn:Hsc; cbn [orb] in H; [discriminate|].
-  destruct (Nat.leb_spec k (refs (T s t))) as [Hk|Hk]; cbn [negb] in H; [|discriminate].
+  destruct (Nat.leb_spec k (refs (T s t))) as [Hk|Hk]; cbn [negb orb] in H; [|discriminate].
+  destruct (lends_from s t) eqn:Hlf; [discriminate|].
   injection H as <-. unfold with_th. cbn [msgs Wc Rc live ths].
   destruct (J8 s I c Hsc) as (Hc0 & Hcm & Hce).
   set (cp := tick (clk (T s t)) t).
   set (xp := {| clk := cp; pend := pend (T s t); refs := refs (T s t) - k; excl := false;
-                mustfree := mustfree (T s t); started := true |}).
-  set (xc := {| clk := tick cp c; pend := []; refs := k; excl := false; mustfree := false; started := true |}).
+                mustfree := mustfree (T s t); started := true; lend := lend (T s t) |}).
+  set (xc := {| clk := tick cp c; pend := []; refs := k; excl := false; mustfree := false; started := true; lend := 0 |}).
   assert (HT : forall M W R l u,
              T {| msgs := M; Wc := W; Rc := R; live := l; ths := upd (upd (ths s) t xp) c xc |} u
              = if Nat.eqb u c then xc else if Nat.eqb u t then xp else T s u).
@@ -89,7 +93,7 @@ Proof.
     + destruct (Nat.eqb_spec u t) as [->|Hn2]; cbn [refs clk xp].
       * intros Hr. eapply cle_trans; [apply (J2 s I t ltac:(lia)) | exact Hcc].
       * apply (J2 s I u).
-  - intros Hl u. destruct (J3 s I Hl u) as [H3|[[h [Hh H3]]|[h [Hm H3]]]]; [left; exact H3| |].
+  - intros Hl u. destruct (J3 s I Hl u) as [H3|[[h [Hh H3]]|[[h [Hm H3]]|[h [Hb H3]]]]]; [left; exact H3| | |].
     + right. left. destruct (Nat.eqb_spec h t) as [->|Hn2].
       * (* holder was the parent: parent or child still holds *)
         destruct (Nat.eq_dec k 0) as [->|Hk0].
@@ -98,9 +102,14 @@ Proof.
         -- exists c. rewrite HT. rewrite Nat.eqb_refl. cbn [refs clk xc]. split; [lia|]. specialize (Hcc2 u). lia.
       * exists h. rewrite HT. destruct (Nat.eqb_spec h c) as [->|Hn1]; [lia|].
         destruct (Nat.eqb_spec h t); [contradiction|]. auto.
-    + right. right. exists h. rewrite HT. destruct (Nat.eqb_spec h c) as [->|Hn1]; [congruence|].
+    + right. right. left. exists h. rewrite HT. destruct (Nat.eqb_spec h c) as [->|Hn1]; [congruence|].
       destruct (Nat.eqb_spec h t) as [->|Hn2]; cbn [mustfree clk xp]; [|auto].
       split; [exact Hm|]. specialize (Hcc u). lia.
+    + right. right. right. exists h. rewrite HT. destruct (Nat.eqb_spec h c) as [->|Hn1].
+      * exfalso. destruct (lend (T s c)) as [|q] eqn:El; [contradiction|].
+        destruct (J10 s I c q El) as (Hstc & _). congruence.
+      * destruct (Nat.eqb_spec h t) as [->|Hn2]; cbn [lend clk xp]; [|auto].
+        split; [exact Hb|]. specialize (Hcc u). lia.
   - intros u. rewrite HT. destruct (Nat.eqb_spec u c) as [->|Hn1]; cbn [mustfree xc]; [discriminate|].
     destruct (Nat.eqb_spec u t) as [->|Hn2]; cbn [mustfree clk pend xp].
     + intros Hm. destruct (J4 s I t Hm) as (Hl & H0 & HW & HR & Hu). repeat split; auto.
@@ -137,4 +146,13 @@ Proof.
   - intros Hl H0. rewrite Htot in H0. destruct (J9 s I Hl H0) as (h & Hm). exists h. rewrite HT.
     destruct (Nat.eqb_spec h c) as [->|]; [congruence|].
     destruct (Nat.eqb_spec h t) as [->|]; cbn [mustfree xp]; exact Hm.
+  - intros c0 p0. rewrite !HT.
+    destruct (Nat.eqb_spec c0 c) as [->|Hc0c]; cbn [lend xc]; [discriminate|].
+    assert (Hnolend : forall w, lend (T s w) <> S t) by (intros w; apply lends_from_false; exact Hlf).
+    destruct (Nat.eqb_spec c0 t) as [->|Hc0t]; cbn [lend xp]; intros El;
+      destruct (J10 s I _ p0 El) as (Hs0 & Hp0 & Hr0 & Hl0 & He0 & HW0);
+      (destruct (Nat.eqb_spec p0 c) as [->|Hp0c]; [exfalso; lia|]);
+      (destruct (Nat.eqb_spec p0 t) as [->|Hp0t]; [exfalso; exact (Hnolend _ El)|]).
+    + cbn [started clk xp]. repeat split; auto. eapply cle_trans; [exact HW0|exact Hcc].
+    + repeat split; auto.
 Qed.
